@@ -1867,17 +1867,32 @@ var rR11t = RuleRef{Name: "R11t", Doc: "a bulk body is accepted only with its CR
 			if !ok {
 				return states
 			}
-			fact, eqOnTrue, ok := termTest(cond)
-			if !ok {
-				return states
+			for {
+				u, isNot := cond.(*ssa.UnOp)
+				if !isNot || u.Op != token.NOT {
+					break
+				}
+				cond, neg = u.X, !neg
 			}
-			if eqOnTrue == neg { // this edge is the `different` edge
+			var facts []string
+			if fact, eqOnTrue, ok := termTest(cond); ok {
+				if eqOnTrue == neg { // this edge is the `different` edge
+					return states
+				}
+				facts = []string{fact}
+			} else if !neg && crlfPredicate(cond, 0) {
+				// the true edge of a test that compares both terminator bytes at once: bytes.HasSuffix(buf, "\r\n"),
+				// or a first-party predicate whose every way of returning true passed both comparisons
+				facts = []string{"LF", "CR"}
+			} else {
 				return states
 			}
 			out := Set{}
 			for e := range states {
 				s := decState(e)
-				s[fact] = true
+				for _, f := range facts {
+					s[f] = true
+				}
 				out[encState(s)] = true
 			}
 			return out
@@ -1963,3 +1978,175 @@ var rR20q = RuleRef{Name: "R20q", Doc: "a command runs on the database its conne
 	c.Count("R20q_dispatch_sites", n)
 	c.Min("R20q_dispatch_sites", 1)
 }}
+
+// constBytesOf: the constant text a []byte/string value stands for: a converted string constant, or a package-level
+// variable initialised once from one and never assigned again.
+func constBytesOf(v ssa.Value) (string, bool) {
+	for i := 0; i < 4; i++ {
+		switch x := v.(type) {
+		case *ssa.Const:
+			return constString(x)
+		case *ssa.Convert:
+			v = x.X
+			continue
+		case *ssa.ChangeType:
+			v = x.X
+			continue
+		case *ssa.UnOp:
+			g, ok := x.X.(*ssa.Global)
+			if !ok || x.Op != token.MUL || g.Pkg == nil {
+				return "", false
+			}
+			var val ssa.Value
+			stores := 0
+			for _, m := range g.Pkg.Members {
+				fn, ok := m.(*ssa.Function)
+				if !ok {
+					continue
+				}
+				fns := append([]*ssa.Function{fn}, fn.AnonFuncs...)
+				for _, f := range fns {
+					for _, b := range f.Blocks {
+						for _, in := range b.Instrs {
+							if st, ok := in.(*ssa.Store); ok && st.Addr == ssa.Value(g) {
+								stores++
+								val = st.Val
+								if f.Name() != "init" {
+									stores += 10
+								}
+							}
+						}
+					}
+				}
+			}
+			if stores != 1 {
+				return "", false
+			}
+			v = val
+			continue
+		}
+		return "", false
+	}
+	return "", false
+}
+
+// crlfPredicate: cond being true means the buffer it was given ends in CR LF.
+func crlfPredicate(cond ssa.Value, depth int) bool {
+	call, ok := cond.(*ssa.Call)
+	if !ok || depth > 2 {
+		return false
+	}
+	cf := call.Call.StaticCallee()
+	if cf == nil {
+		return false
+	}
+	if cf.Pkg != nil && (cf.Pkg.Pkg.Path() == "bytes" || cf.Pkg.Pkg.Path() == "strings") && cf.Name() == "HasSuffix" && len(call.Call.Args) == 2 {
+		s, ok := constBytesOf(call.Call.Args[1])
+		return ok && strings.HasSuffix(s, "\r\n")
+	}
+	if !firstParty(cf) || len(cf.Blocks) == 0 || len(cf.Params) != 1 {
+		return false
+	}
+	// a first-party predicate on one buffer: every return that can be true lies behind both byte comparisons
+	buf := cf.Params[0]
+	byteTest := func(v ssa.Value) (string, bool, bool) {
+		bo, isB := v.(*ssa.BinOp)
+		if !isB || (bo.Op != token.EQL && bo.Op != token.NEQ) {
+			return "", false, false
+		}
+		k, isK := bo.Y.(*ssa.Const)
+		x := bo.X
+		if !isK {
+			k, isK = bo.X.(*ssa.Const)
+			x = bo.Y
+		}
+		if !isK || k.Value == nil {
+			return "", false, false
+		}
+		u, isU := x.(*ssa.UnOp)
+		if !isU || u.Op != token.MUL {
+			return "", false, false
+		}
+		ia, isI := u.X.(*ssa.IndexAddr)
+		if !isI || ia.X != ssa.Value(buf) {
+			return "", false, false
+		}
+		sub, isS := ia.Index.(*ssa.BinOp)
+		if !isS || sub.Op != token.SUB {
+			return "", false, false
+		}
+		off, isO := sub.Y.(*ssa.Const)
+		ln, isL := sub.X.(*ssa.Call)
+		if !isO || !isL {
+			return "", false, false
+		}
+		if bi, ok := ln.Call.Value.(*ssa.Builtin); !ok || bi.Name() != "len" || ln.Call.Args[0] != ssa.Value(buf) {
+			return "", false, false
+		}
+		switch {
+		case k.Int64() == '\n' && off.Int64() == 1:
+			return "LF", bo.Op == token.EQL, true
+		case k.Int64() == '\r' && off.Int64() == 2:
+			return "CR", bo.Op == token.EQL, true
+		}
+		return "", false, false
+	}
+	edge := func(from, to *ssa.BasicBlock, s Set) Set {
+		c2, neg, ok := branchCond(from, to)
+		if !ok {
+			return s
+		}
+		if f, eqOnTrue, ok := byteTest(c2); ok && eqOnTrue != neg {
+			s[f] = true
+		}
+		return s
+	}
+	fl := &Flow{Fn: cf, Must: true, Entry: Set{}, Transfer: func(in ssa.Instruction, s Set) (Set, bool) { return s, false }, EdgeGen: edge}
+	fl.Run()
+	any := false
+	for _, b := range cf.Blocks {
+		ret, ok := b.Instrs[len(b.Instrs)-1].(*ssa.Return)
+		if !ok || len(ret.Results) != 1 {
+			continue
+		}
+		st, live := fl.Before(ret)
+		if !live {
+			continue
+		}
+		var vals []ssa.Value
+		var preds []*ssa.BasicBlock
+		if phi, ok := ret.Results[0].(*ssa.Phi); ok && phi.Block() == b {
+			vals, preds = phi.Edges, b.Preds
+		} else {
+			vals, preds = []ssa.Value{ret.Results[0]}, []*ssa.BasicBlock{nil}
+		}
+		for i, v := range vals {
+			have := Set{}
+			if preds[i] == nil {
+				for f := range st {
+					have[f] = true
+				}
+			} else if last := preds[i].Instrs[len(preds[i].Instrs)-1]; last != nil {
+				if s2, live := fl.Before(last); live {
+					for f := range s2 {
+						have[f] = true
+					}
+				}
+			}
+			if k, ok := v.(*ssa.Const); ok && k.Value != nil {
+				if k.Value.ExactString() == "false" {
+					continue
+				}
+			} else if f, eqOnTrue, ok := byteTest(v); ok && eqOnTrue {
+				have[f] = true // the returned comparison itself
+			} else if !ok {
+				return false
+			}
+			any = true
+			if !(have["LF"] && have["CR"]) {
+				return false
+			}
+		}
+	}
+	return any
+}
